@@ -8,7 +8,7 @@ TECH = "symbolic execution of the repository's go/ssa (own engine symgo) + z3/cv
 
 CHECKS = {
  "C01": dict(
-  text="Bounded symbolic model checking of the real VM: for every generated Numscript program (NumGen bound) every path of vm.Run over unbounded-integer symbolic balances, amounts, caps and overdrafts is executed from go/ssa; the running-balance floor rule is asserted on each emitted posting and decided by z3 for all values at once; 'short sources => ErrInsufficientFund and no result' is checked against the reference reading. ZZ_C01Save: the same floor rule on six programs that put funds aside with `save` (a difference, a sum, everything; followed by sends with bounded overdrafts), amounts and opening balances arbitrary integers. Holds for all integers within the program bound; says nothing outside it.",
+  text="Bounded symbolic model checking of the real VM: for every generated Numscript program (NumGen bound) every path of vm.Run over unbounded-integer symbolic balances, amounts, caps and overdrafts is executed from go/ssa; the running-balance floor rule is asserted on each emitted posting and decided by z3 for all values at once; 'short sources => ErrInsufficientFund and no result' is checked against the reference reading. ZZ_C01Save: the same floor rule on six programs that put funds aside with `save` (a difference, a sum, everything; followed by sends with bounded overdrafts) and on two programs reading balance() of two assets of one account, amounts and opening balances arbitrary integers. Holds for all integers within the program bound; says nothing outside it.",
   note="Trusted: the engine's SSA semantics and big.Int->SMT Int mapping (validated by replaying solver witness models natively), z3/cvc5, the native compiler run (program lifted from the current tree), RefSem for the insufficiency clause. Map iteration order fixed to insertion order.",
   ref="DESIGN §5 C01"),
  "C03": dict(
@@ -16,7 +16,7 @@ CHECKS = {
   note="Trusted: engine semantics (validated by native witness replays), solver, native compiler. Portions are concrete (linear arithmetic).",
   ref="DESIGN §5 C03"),
  "C08": dict(
-  text="Differential bounded model checking: native compiler + symbolic VM against a ~250-line reference semantics (RefSem) evaluated on the same symbolic inputs; per (source,destination,asset) the summed amounts are proved equal on every path, outcome classes (ok/insufficient/invalid/vars refused) must agree, and Compile must accept exactly the programs the static rules of the language accept. A second differential (ZZ_C08X) runs 12 hand-read programs over the rest of the grammar (save, metadata statements, arithmetic, typed variables, balance(), meta()); ZZ_C08Cache runs command.Compiler.Compile (interpreted; sha256 = injective token appended in place, gcache = bounded LFU model) with cache sizes 1/2/1024 and two concurrent texts under every schedule within the pre-emption budget, including pre-emptions between nested calls of one statement.",
+  text="Differential bounded model checking: native compiler + symbolic VM against a ~250-line reference semantics (RefSem) evaluated on the same symbolic inputs; per (source,destination,asset) the summed amounts are proved equal on every path, outcome classes (ok/insufficient/invalid/vars refused) must agree, and Compile must accept exactly the programs the static rules of the language accept. A second differential (ZZ_C08X) runs 12 hand-read programs over the rest of the grammar (save, metadata statements, arithmetic — also over portioned sources —, typed variables, balance(), meta()) and checks that seven texts the language rejects (characters no token has, unterminated block, type error) are refused; ZZ_C08Cache runs command.Compiler.Compile (interpreted; sha256 = injective token appended in place, gcache = bounded LFU model) with cache sizes 1/2/1024 and two concurrent texts under every schedule within the pre-emption budget, including pre-emptions between nested calls of one statement.",
   note="Trusted: RefSem (harness/internal/machine/vm/zz_ast.go), engine, solver. Zero-amount postings and splitting of adjacent postings are not compared.",
   ref="DESIGN §5 C08"),
  "C12": dict(
@@ -32,7 +32,7 @@ CHECKS = {
   note="Trusted: engine, solver, InMemoryStore.",
   ref="DESIGN §5 C10"),
  "C13": dict(
-  text="Bounded symbolic model checking of the log round trip: every log kind the commander can write (7 write kinds incl. delete-metadata on accounts and transactions; metadata of one entry, nil, empty, two entries; also right after a preview of the same request) is produced by the real write path with symbolic ids and amounts, encoded by the rope-level JSON model (interpreting the repository's MarshalJSON/UnmarshalJSON methods), decoded by ChainedLog.UnmarshalJSON/HydrateLog, re-encoded (text equality decided on ropes) and its hash recomputed from the round-tripped entry and its predecessor.",
+  text="Bounded symbolic model checking of the log round trip: every log kind the commander can write (7 write kinds incl. delete-metadata on accounts and transactions; metadata of one entry, nil, empty, two entries; also right after a preview of the same request; creates also with six client-supplied timestamps at the edges of what RFC 3339 can hold) is produced by the real write path with symbolic ids and amounts, encoded by the rope-level JSON model (interpreting the repository's MarshalJSON/UnmarshalJSON methods), decoded by ChainedLog.UnmarshalJSON/HydrateLog, re-encoded (text equality decided on ropes) and its hash recomputed from the round-tripped entry and its predecessor.",
   note="encoding/json is a model (validated on witness replays), sha256 is an injective token; arbitrary Unicode metadata and RFC3339Nano formatting of arbitrary instants are outside the claim; transaction ids < 2^62.",
   ref="DESIGN §5 C13"),
  "C14": dict(
@@ -40,11 +40,11 @@ CHECKS = {
   note="The preview spellings are those both API versions accept at the pinned commit (documented boolean plus legacy yes). Sequential requests; restarts after a preview are covered by the symbolic pre-state (Init only reads the tail). Trusted: engine, solver, InMemoryStore.",
   ref="DESIGN §5 C14"),
  "C16": dict(
-  text="Bounded symbolic model checking of event emission: per write kind x {real, preview, repeated through an idempotency key} every event — decoded from the JSON payload the real bus.ledgerMonitor hands to a recording publisher — is matched against a persisted log entry (transaction ids symbolic; for reverts which transaction is reverted and which reverts), previews and refused writes publish nothing, every persisted change is published at least once; ZZ_C16Conc: 1-2 concurrent writes whose client may give up at an arbitrary moment — at rest persisted entries and published events are in bijection.",
+  text="Bounded symbolic model checking of event emission: per write kind x {real, preview, repeated through an idempotency key} every event — decoded from the JSON payload the real bus.ledgerMonitor hands to a recording publisher — is matched against a persisted log entry (transaction ids symbolic; for reverts which transaction is reverted and which reverts), previews and refused writes (including reverts and metadata writes aimed at a transaction that does not exist) publish nothing, every persisted change is published at least once; ZZ_C16Conc: 1-2 concurrent writes whose client may give up at an arbitrary moment — at rest persisted entries and published events are in bijection.",
   note="publish.NewMessage is modelled (payload = JSON model of the real EventMessage; uuid and otel context constant); watermill transport is not executed. Concurrent emission is not part of this check.",
   ref="DESIGN §5 C16"),
  "C18": dict(
-  text="Bounded symbolic model checking of v2.ProcessBulk against a recording backend: bulks of 1..3 elements, the action of each element (four known, one unknown) and the error class enumerated, success/failure of each element and continueOnFailure as solver variables; executed calls (order, idempotency keys), one result per processed element at its position with the matching type, early stop and the failure signal are compared with the in-order reference; the same through bulkHandler (JSON body, continueOnFailure parameter, status code, JSON answer); two bulk requests in a row (the second must run on its own keys and payloads); per-element arguments of ADD/DELETE_METADATA elements.",
+  text="Bounded symbolic model checking of v2.ProcessBulk against a recording backend: bulks of 1..3 elements, the action of each element (four known, one unknown) and the error class enumerated, success/failure of each element and continueOnFailure as solver variables; executed calls (order, idempotency keys), one result per processed element at its position with the matching type, early stop and the failure signal are compared with the in-order reference; the same through bulkHandler (JSON body, continueOnFailure parameter absent or an arbitrary alphanumeric string of 1..4 bytes, status code, JSON answer); two bulk requests in a row (the second must run on its own keys and payloads); per-element arguments of ADD/DELETE_METADATA elements.",
   note="Element payloads are concrete well-formed JSON decoded by the JSON model; the inputs are Booleans and small choices, so the engine's forking does the exploration and the solver decides feasibility and the final formulas. chi routing is not executed; sync.Pool is modelled as always reusing.",
   ref="DESIGN §5 C18"),
  "C19": dict(
@@ -68,19 +68,19 @@ CHECKS = {
   note="Bound: pre-emption budget 1 (thorough 2) at statement boundaries of the instrumented files, switches forced by blocking resolved deterministically (lowest thread id); each Store call atomic; InMemoryStore stands for the database. Counterexample schedules are replayed natively by a schedule controller (goroutine gating at the same yields). A failing InsertLogs persists nothing (one database transaction per batch).",
   ref="DESIGN §5 C06"),
  "C07": dict(
-  text="Bounded symbolic model checking with schedules and one crash: two concurrent writes sharing an idempotency key (create/create, metadata/metadata, create/metadata, revert/revert; optionally a third, key-less create whose transaction reference equals the key), then stop-or-crash, restart and a retry with the same key; at most one log entry carries the key and all successful responses name the same transaction.",
+  text="Bounded symbolic model checking with schedules and one crash: two concurrent writes sharing an idempotency key (create/create, metadata/metadata, create/metadata, revert/revert; optionally a third, key-less create whose transaction reference equals the key; keys of 255 and 256 bytes), then stop-or-crash, restart and a retry with the same key; at most one log entry carries the key and all successful responses name the same transaction.",
   note="Bound: pre-emption budget 1 (thorough 2) at statement boundaries of the instrumented files, switches forced by blocking resolved deterministically (lowest thread id); each Store call atomic; InMemoryStore stands for the database. Counterexample schedules are replayed natively by a schedule controller (goroutine gating at the same yields).",
   ref="DESIGN §5 C07"),
  "C11": dict(
-  text="Bounded symbolic model checking with schedules: 2-3 concurrent creates sharing a reference (sourced from a locked account or from @world only, optionally with a concurrent dry run carrying the same reference), then a later create with that reference; at most one committed transaction carries it, accepted requests = committed transactions, the later request is rejected with a conflict.",
+  text="Bounded symbolic model checking with schedules: 2-3 concurrent creates sharing a reference — plain, padded with white space, or with URL-ish characters — (sourced from a locked account or from @world only, optionally with a concurrent dry run carrying the same reference), then a later create with that reference; at most one committed transaction carries it, accepted requests = committed transactions, the later request is rejected with a conflict.",
   note="Bound: pre-emption budget 1 (thorough 2) at statement boundaries of the instrumented files, switches forced by blocking resolved deterministically (lowest thread id); each Store call atomic; InMemoryStore stands for the database. Counterexample schedules are replayed natively by a schedule controller (goroutine gating at the same yields).",
   ref="DESIGN §5 C11"),
  "C15": dict(
-  text="Bounded symbolic model checking of the lock manager alone: 14 populations of 2-3 requests with read/write sets over two accounts, optionally one request cancelled by a separate thread at an arbitrary moment; every schedule with at most 1 (thorough 2) pre-emptions at statement boundaries of lock.go and linked_list.go, all blocking switches and select choices explored; read sets of up to two accounts; exclusion when Lock returns, progress and no leftover lock or queued intent at quiescence; 6 staged-release populations in which holders release one at a time: whenever the system is at rest, every pending request conflicts with a current holder.",
+  text="Bounded symbolic model checking of the lock manager alone: 14 populations of 2-3 requests with read/write sets over two accounts, optionally one request cancelled by a separate thread at an arbitrary moment; every schedule with at most 1 (thorough 2) pre-emptions at statement boundaries of lock.go and linked_list.go, all blocking switches and select choices explored; read sets of up to two accounts, an account possibly in both sets of one request; exclusion when Lock returns, progress and no leftover lock or queued intent at quiescence; 6 staged-release populations in which holders release one at a time: whenever the system is at rest, every pending request conflicts with a current holder.",
   note="The inputs are schedules and cancellation moments (decisions); the solver's part is feasibility. Counterexample schedules are replayed natively by the schedule controller.",
   ref="DESIGN §5 C15"),
  "C17": dict(
-  text="Bounded symbolic model checking of bunpaginate over an abstract ordered table: for collections of 0..4 rows with arbitrary increasing ids, every page size 1..n+1 and both orders, UsingColumn is followed through `next` until hasMore is false (each row exactly once, in order) and back through `previous` (the page before; from there `next` must lead back and `previous` one page further), every cursor being decoded again with UnmarshalCursor; UsingOffset's one-step law (page contents count, hasMore, next/previous offsets) is decided for arbitrary offset < 2^31 (bun keeps OFFSET as int32) and page size <= MaxPageSize; every filter tree of depth <= 2 over {$match,$lt,$and,$or,$not} put into a cursor is decoded to a builder rendering the same clause; cursors of the transactions/accounts/logs listings with filters are encoded, decoded and must build the same WHERE clause.",
+  text="Bounded symbolic model checking of bunpaginate over an abstract ordered table: for collections of 0..4 rows with arbitrary increasing ids, every page size 1..n+1 and both orders, UsingColumn is followed through `next` until hasMore is false (each row exactly once, in order) and back through `previous` (the page before; from there `next` must lead back and `previous` one page further), every cursor being decoded again with UnmarshalCursor; UsingOffset's one-step law (page contents count, hasMore, next/previous offsets) is decided for arbitrary offset < 2^31 (bun keeps OFFSET as int32) and page size <= MaxPageSize; every filter tree of depth <= 2 over {$match,$lt,$and,$or,$not} put into a cursor is decoded to a builder rendering the same clause; a query holding a filter value of 1..4 arbitrary printable bytes is written by EncodeCursor and read back by UnmarshalCursor (base64 alphabet and padding modelled bit-exactly); cursors of the transactions/accounts/logs listings with filters are encoded, decoded and must build the same WHERE clause.",
   note="*bun.SelectQuery is modelled as an ordered relation (Where/OrderExpr/Offset/Limit/Scan); bun's SQL generation and PostgreSQL are outside the claim; natively the replays run against a fake database/sql driver that parses the statements bun emits. reflect is answered from go/types; JSON/base64 are models.",
   ref="DESIGN §5 C17"),
 }
